@@ -442,9 +442,14 @@ func genStubOrigin(r *Run, g *originGen) *stubOrigin {
 	hasVideo := T.Chance(4, 5)
 	nAudioSame := 0
 	nRend := 0
+	tsRend := false
 	if container == "ts" {
 		if hasVideo {
-			nAudioSame = T.Intn(2)
+			nAudioSame = Pick(T, 0, 1, 1, 2, 3)
+			if g.renditions && T.Chance(1, 4) {
+				// MPEG-TS audio renditions next to an MPEG-TS video variant
+				nAudioSame, nRend, tsRend = 0, T.Range(1, 2), true
+			}
 		} else {
 			nAudioSame = 1
 		}
@@ -459,7 +464,7 @@ func genStubOrigin(r *Run, g *originGen) *stubOrigin {
 		}
 	}
 	segDur := time.Duration(Pick(T, g.segDurMs...)) * time.Millisecond
-	fps := Pick(T, 10, 25, 30)
+	fps := Pick(T, 10, 25, 30, 1, 2, 5)
 	frameDur90 := int64(90000 / fps)
 	framesPerSeg := int(int64(segDur) * int64(fps) / int64(time.Second))
 	if framesPerSeg < 1 {
@@ -613,7 +618,11 @@ func genStubOrigin(r *Run, g *originGen) *stubOrigin {
 		addAudio(lead, baseSec)
 	}
 	for i := 0; i < nRend; i++ {
-		rs := mkStream(fmt.Sprintf("aud%d", i), "fmp4")
+		rc := "fmp4"
+		if tsRend {
+			rc = "ts"
+		}
+		rs := mkStream(fmt.Sprintf("aud%d", i), rc)
 		tid = 1
 		addAudio(rs, baseSec)
 		o.streams = append(o.streams, rs)
